@@ -601,6 +601,35 @@ def oracle_C06_fields(scn, tr):
     return fails
 
 
+def oracle_C06_needall(scn, tr):
+    """family needall: only the number of fields decides: more fields than variables, no field at all, or
+    fewer than all with need_all_vars -> ERROR and no write handler call; otherwise OK and (if there is a write
+    handler) exactly one call with args_num = number of fields given"""
+    if scn.meta.get('family') != 'needall':
+        return []
+    fails = []
+    lines, problems, pending = segment(scn, tr)
+    c = scn.cmds()[0]
+    nv = len(c.vars)
+    for ln in lines:
+        t = bytes(x for x in ln.text if x != 13)
+        if not t.startswith(b'AT+C='):
+            continue
+        arg = t[5:]
+        k = 0 if arg == b'' else arg.count(b',') + 1
+        hw = [x for x in ln.calls if x[0] == 'H' and x[1] == 'w']
+        bad = (k == 0) or (k > nv) or (c.need_all and k < nv)
+        if bad:
+            if ln.result != 'ERROR' or hw:
+                fails.append('line %r gives %d fields for %d variables (need_all_vars=%d): expected ERROR and no write handler call, got %s and %d call(s)' % (ln.text, k, nv, int(c.need_all), ln.result, len(hw)))
+        else:
+            if ln.result != 'OK':
+                fails.append('line %r gives %d valid fields for %d variables (need_all_vars=%d) but was answered %s' % (ln.text, k, nv, int(c.need_all), ln.result))
+            if c.w and (len(hw) != 1 or int(hw[0][5]) != k):
+                fails.append('line %r: write handler calls %r, expected one call with args_num %d' % (ln.text, [x[3:6] for x in hw], k))
+    return fails
+
+
 def oracle_C06(scn, tr):
     lines, problems, pending = segment(scn, tr)
     fails = []
